@@ -1483,7 +1483,7 @@ func (d *errDoc) value(depth int, inject *int, kind int, inObj bool) {
 				}
 				*inject--
 				if *inject == 0 && kind == 3 {
-					d.mark([]string{"x", "1", "[", ":", ","}[r.Intn(5)])
+					d.mark([]string{"x", "1", "[", ":", ",", "é", "€", "\U0001F600", "“"}[r.Intn(9)])
 					return
 				}
 				if d.r.Chance(15) {
@@ -1494,7 +1494,7 @@ func (d *errDoc) value(depth int, inject *int, kind int, inObj bool) {
 					d.add(`"k` + strconv.Itoa(i) + `"`)
 				}
 				if *inject == 0 && kind == 1 {
-					d.mark([]string{"1", "\"v\"", "x", "=", "{"}[r.Intn(5)])
+					d.mark([]string{"1", "\"v\"", "x", "=", "{", "é", "€", "\U0001F600"}[r.Intn(8)])
 					return
 				}
 				d.add(":")
@@ -1518,7 +1518,7 @@ func (d *errDoc) value(depth int, inject *int, kind int, inObj bool) {
 						d.add("{")
 						d.add("}")
 					}
-					d.mark([]string{"x", "1", "]", ":", "t"}[r.Intn(5)])
+					d.mark([]string{"x", "1", "]", ":", "t", "é", "€", "\U0001F600", "”"}[r.Intn(9)])
 					return
 				}
 				d.value(depth+1, inject, kind, true)
@@ -1586,6 +1586,10 @@ func runC20(c *Ctx) {
 			} else {
 				prefix += []string{"\n", "junk {\"a\":1}\n", " ", "}\n\n", "\r\n"}[r.Intn(5)]
 			}
+		}
+		if r.Chance(12) {
+			// errors on lines with two, three and four digits (a message cut short by a byte or two still "cites a line")
+			prefix = strings.Repeat("\n", []int{8, 9, 10, 98, 99, 100, 998, 999, 1000, 12344}[r.Intn(10)]) + prefix
 		}
 		text, line, ok := d.render(prefix)
 		if !ok {
